@@ -43,6 +43,7 @@ func vCheckArray(name string, a *Array, st vState, res *Array) {
 	zzverif.Observe(name, b)
 	zzverif.Assert(zzverif.CBORItems(b, len(st.pre)) >= 0, name+": appended bytes are complete well-formed CBOR items")
 	zzverif.Reach(name)
+	vCheckOwned(name, a.buf)
 }
 
 func vEventOK(b []byte) bool { return zzverif.CBOREvent(b) }
